@@ -334,7 +334,7 @@ def main(args):
     seed = int(os.environ.get("VERIF_SEED", args.seed))
     tier = args.tier
     workers = args.workers
-    n_cases = args.runs or (176 if tier == "quick" else 2000)
+    n_cases = args.runs or (288 if tier == "quick" else 2000)
     n_inc = args.incarnations or (5 if tier == "quick" else 10)
     hs = hash_seeds(seed, n_inc)
     profile = {"variants_per_inc": 1}
